@@ -327,9 +327,13 @@ func parseContractFile(path string) (*ContractFile, error) {
 // those properties. Untagged clauses are part of every run.
 var activeLayer string
 
+// layerMark is appended to clause-level property tags: obligations that stem
+// from a tagged clause carry it.
+const layerMark = "@layer"
+
 func layerSkips(props []string) bool {
-	if activeLayer == "" || len(props) == 0 {
-		return false
+	if true {
+		return false // layers are applied per VC (vc.clauses)
 	}
 	for _, p := range props {
 		if p == activeLayer {
@@ -351,7 +355,7 @@ func splitLabel(s string) (label string, props []string, expr string) {
 		}
 		if strings.HasPrefix(s, "{") {
 			if i := strings.Index(s, "}"); i > 0 {
-				props = strings.Fields(strings.ReplaceAll(s[1:i], ",", " "))
+				props = append(strings.Fields(strings.ReplaceAll(s[1:i], ",", " ")), layerMark)
 				s = strings.TrimSpace(s[i+1:])
 				continue
 			}
